@@ -603,6 +603,11 @@ class World(object):
 def execute(entry, root, cwd, argv, env, stdin_bytes, listing_seed, faults=None, sink=None, real_crash=False):
     """Run the real entry point once inside the world.  -> record dict."""
     w = World(root, listing_seed, faults, sink=sink, real_crash=real_crash)
+    # the clock seam: the command reads no clock today; if a change makes it read one, what it sees is a function of
+    # the world's seed (with stalls in a third of the worlds), not of how fast this process runs
+    from sim import simclock
+    clock = simclock.SimClock(seeds.mix(listing_seed, 'clock'), stall_p=[0.0, 0.0, 0.1][listing_seed % 3])
+    simclock.CURRENT['clock'] = clock
     saved = {'argv': sys.argv, 'stdin': sys.stdin, 'stdout': sys.stdout, 'stderr': sys.stderr, 'cwd': os.getcwd()}
     saved_env = {}
     env = env or {}
@@ -643,6 +648,7 @@ def execute(entry, root, cwd, argv, env, stdin_bytes, listing_seed, faults=None,
         finally:
             w.uninstall()
     finally:
+        simclock.CURRENT['clock'] = None
         sys.argv = saved['argv']
         sys.stdin = saved['stdin']
         sys.stdout = saved['stdout']
@@ -658,6 +664,7 @@ def execute(entry, root, cwd, argv, env, stdin_bytes, listing_seed, faults=None,
                 os.environ[k] = v
     return {
         'exit': exit_status, 'exc': exc, 'crashed': w.crashed, 'events': w.events, 'fired': w.fired, 'mods': w.mods,
+        'clock_reads': clock.reads,
         'outside': w.outside,
         'stdout_b': b''.join(p for (_, s, t, p) in w.std if s == 'stdout' and t == 'b'),
         'stdout_t': ''.join(p for (_, s, t, p) in w.std if s == 'stdout' and t == 't'),
